@@ -5,9 +5,43 @@ from harness.common import Check, run_check
 from harness import gens as G
 
 
-def _mk(terms):
-    from paulie import PauliStringLinear
-    return PauliStringLinear([(complex(a, b), p) for a, b, p in terms])
+def _compact(p):
+    """the same string in the parser's sparse notation (letters with 1-based positions, then the size)"""
+    body = "".join("%s_%d" % (ch, i + 1) for i, ch in enumerate(p) if ch != "I")
+    return (body or "I") + "s%d" % len(p) if p else p
+
+
+_ROUTE = ["list"]
+
+
+def _mk(terms, route=None):
+    """a PauliStringLinear with these terms, reached through a public route: the term list itself, strings in sparse
+    notation, PauliString objects, or an accumulator filled with += (only for term lists += reproduces literally:
+    distinct strings, non-zero coefficients)"""
+    from paulie import PauliStringLinear, PauliString
+    route = route or _ROUTE[0]
+    plain = [(complex(a, b), p) for a, b, p in terms]
+    literal = len({p for _, p in plain}) == len(plain) and all(c != 0 for c, _ in plain) and len(plain) > 0
+    if route == "compact" and terms and all(p for _, p in plain):
+        return PauliStringLinear([(c, _compact(p)) for c, p in plain])
+    if route == "objects" and terms:
+        return PauliStringLinear([(c, PauliString(pauli_str=p)) for c, p in plain])
+    if route == "iadd_empty" and literal:
+        acc = PauliStringLinear([])
+        for t in plain:
+            acc += PauliStringLinear([t])
+        return acc
+    if route == "iadd_first" and literal:
+        acc = PauliStringLinear(plain[:1])
+        for t in plain[1:]:
+            acc += PauliStringLinear([t])
+        return acc
+    if route == "copy":
+        return PauliStringLinear(plain).copy()
+    return PauliStringLinear(plain)
+
+
+ROUTES = ["list", "list", "compact", "objects", "iadd_empty", "iadd_first", "copy"]
 
 
 def _terms(x):
@@ -31,7 +65,8 @@ def _mat(x):
 def impl(case):
     import numpy as np
     a_t, b_t, s = case["a"], case["b"], complex(*case["s"])
-    out = {}
+    _ROUTE[0] = case.get("route", "list")
+    out = {"route": _ROUTE[0]}
     dense = case["n"] <= 3
     def safe(name, f):
         try:
@@ -164,7 +199,7 @@ def main():
         b = rand_lin(ck.rng, n) if ck.rng.random() < 0.85 else [list(t) for t in a]
         if ck.rng.random() < 0.1:
             ck.rng.shuffle(b)
-        cases.append({"a": a, "b": b, "s": [ck.rng.randint(-3, 3), ck.rng.randint(-2, 2)], "n": n})
+        cases.append({"a": a, "b": b, "s": [ck.rng.randint(-3, 3), ck.rng.randint(-2, 2)], "n": n, "route": ck.rng.choice(ROUTES)})
     res = ck.impl("c12", cases, per_case_s=60)
     req = []
     for c in cases:
